@@ -271,9 +271,28 @@ pub fn variant(name: &str) -> Option<(usize, Variant)> {
 
 /// Construct the real object. `key` empty = unkeyed.
 pub fn make(name: &str, outlen: usize, key: &[u8]) -> Box<dyn HashObj> {
+    make_via(name, outlen, key, false)
+}
+
+/// `marker`: construct const-size BLAKE2 contexts through the algorithm marker types (`Blake2b::<BITS>::new[_keyed]`,
+/// `Blake2s::<BITS>::new[_keyed]`) instead of `Context::<BITS>::new[_keyed]`; both are documented constructors
+pub fn make_via(name: &str, outlen: usize, key: &[u8], marker: bool) -> Box<dyn HashObj> {
     macro_rules! b2 {
-        ($w:ident, $m:ident, $bits:literal) => {
-            Box::new($w(if key.is_empty() { $m::Context::<$bits>::new() } else { $m::Context::<$bits>::new_keyed(key) }))
+        ($w:ident, blake2b, $bits:literal) => {
+            Box::new($w(match (key.is_empty(), marker) {
+                (true, false) => blake2b::Context::<$bits>::new(),
+                (true, true) => blake2b::Blake2b::<$bits>::new(),
+                (false, false) => blake2b::Context::<$bits>::new_keyed(key),
+                (false, true) => blake2b::Blake2b::<$bits>::new_keyed(key),
+            }))
+        };
+        ($w:ident, blake2s, $bits:literal) => {
+            Box::new($w(match (key.is_empty(), marker) {
+                (true, false) => blake2s::Context::<$bits>::new(),
+                (true, true) => blake2s::Blake2s::<$bits>::new(),
+                (false, false) => blake2s::Context::<$bits>::new_keyed(key),
+                (false, true) => blake2s::Blake2s::<$bits>::new_keyed(key),
+            }))
         };
     }
     match name {
@@ -626,7 +645,7 @@ impl Scenario for HashCtx {
         let klen0 = (t.p("key_len") as usize).min(var.max_key);
         let key0 = crate::rng::data(t.p("key_seed"), klen0);
         let name = var.name;
-        let first = guarded(|| make(name, outlen, &key0)).map_err(|m| Violation::new("unexpected-panic", 0, "object constructed", m, "new / new_keyed"))?;
+        let first = guarded(|| make_via(name, outlen, &key0, t.p("key_seed") & 2 != 0)).map_err(|m| Violation::new("unexpected-panic", 0, "object constructed", m, "new / new_keyed"))?;
         let mut hs: Vec<Option<Handle>> = vec![Some(Handle { obj: first, key: key0, log: Vec::new() })];
 
         for (i, op) in t.ops.iter().enumerate() {
